@@ -215,6 +215,39 @@ func SimParentOf(id uint64) uint64 { return simParents[id&simParentMask] }
 		return nil, err
 	}
 	out[filepath.Join(rt, "zz_sim.go")] = filepath.Join(od, "zz_sim.go")
+
+	// Every dial and listen of the process - also those made by a transport, dialer
+	// or server value that code under test creates itself - goes to the simulated
+	// network: net.Dialer.DialContext and net.ListenConfig.Listen get a hook.
+	nd := filepath.Join(goRoot, "src", "net")
+	b, err = os.ReadFile(filepath.Join(nd, "dial.go"))
+	if err != nil {
+		return nil, err
+	}
+	s, err = mustReplace(string(b), "func (d *Dialer) DialContext(ctx context.Context, network, address string) (Conn, error) {\n", "func (d *Dialer) DialContext(ctx context.Context, network, address string) (Conn, error) {\n\tif SimDialContext != nil {\n\t\tsctx, scancel := d.dialCtx(ctx)\n\t\tdefer scancel()\n\t\treturn SimDialContext(sctx, network, address)\n\t}\n", "net dial hook")
+	if err != nil {
+		return nil, err
+	}
+	s, err = mustReplace(s, "func (lc *ListenConfig) Listen(ctx context.Context, network, address string) (Listener, error) {\n", "func (lc *ListenConfig) Listen(ctx context.Context, network, address string) (Listener, error) {\n\tif SimListen != nil {\n\t\treturn SimListen(network, address)\n\t}\n", "net listen hook")
+	if err != nil {
+		return nil, err
+	}
+	if err := os.WriteFile(filepath.Join(od, "net_dial.go"), []byte(s), 0o644); err != nil {
+		return nil, err
+	}
+	out[filepath.Join(nd, "dial.go")] = filepath.Join(od, "net_dial.go")
+	netExtra := `package net
+
+import "context"
+
+// SimDialContext and SimListen, when set, replace the operating system's network.
+var SimDialContext func(ctx context.Context, network, address string) (Conn, error)
+var SimListen func(network, address string) (Listener, error)
+`
+	if err := os.WriteFile(filepath.Join(od, "net_zz_sim.go"), []byte(netExtra), 0o644); err != nil {
+		return nil, err
+	}
+	out[filepath.Join(nd, "zz_sim.go")] = filepath.Join(od, "net_zz_sim.go")
 	return out, nil
 }
 
